@@ -13,10 +13,12 @@ RULE = ("two case kinds. (taylor) scalar SDE with drift/diffusion generated from
         "{1, cos t, sin t, 1+t/2} * {1, y, sin y, cos y, tanh y, exp(-y^2), y/(1+y^2)}), declared with each of the four "
         "noise types and both calculi, x every accepted (method, options, Levy mode) x base point (t, y). The real "
         "solver.step is called through a stub Brownian motion returning prescribed dW = sqrt(h) xi, U = h^1.5 (xi/2 + "
-        "zeta/sqrt(12)), A = 0 on a 12x12 Gauss-Hermite grid of (xi, zeta) for h = 2^-3..2^-10. Oracle: the order-1.5 "
+        "zeta/sqrt(12)), A = 0 on a 12x12 Gauss-Hermite grid of (xi, zeta) for h = 2^-3..2^-12. Oracle: the order-1.5 "
         "Ito-Taylor truncation of the equivalent Ito SDE built from sympy operators L0, L1 (no autograd, no solver "
         "code). With R = step - Taylor: the Gauss-Hermite RMS of R must decay with slope >= p + 1/2 - 0.15 and |E R| "
-        "with slope >= p + 1 - 0.2 (or be below 1e-13), p = strong_order of the instantiated solver. (exact) generic "
+        "with slope >= p + 1 - 0.2 (or be below 1e-13), p = strong_order of the instantiated solver; a violation needs "
+        "both a low fitted slope on the fine half and growth (> 2x, coarsest vs finest third) of the quantity divided by "
+        "h^(required-margin), because |E R| may change sign inside the ladder. (exact) generic "
         "multi-dimensional SDEs: Euler and derivative Milstein steps equal y + f h + g dW [+ 1/2 (Dg g)(dW^2 - h | "
         "dW^2)] computed from explicit Jacobians to 1e-12, incl. vector-valued scalar noise with non-symmetric Dg. "
         "Non-trivial (taylor) = g' != 0 and g'' != 0 at the base point (non-additive) and f or g depends on t; "
@@ -161,7 +163,7 @@ def _run_taylor(case):
     t0 = torch.tensor(case["t0"], dtype=torch.float64)
     sig = {"sde_type": combo["sde_type"], "noise_type": nt, "method": combo["method"], "grad_free": bool(combo["options"])}
     label = f"{combo['sde_type']}/{nt}/{combo['method']}" + ("+grad_free" if combo["options"] else "")
-    ks = list(range(3, 11))
+    ks = list(range(3, 13))
     rms, mean = [], []
     p = None
     for k in ks:
@@ -188,14 +190,23 @@ def _run_taylor(case):
         rms.append(float(torch.sqrt((Wt * R ** 2).sum())))
         mean.append(abs(float((Wt * R).sum())))
     half = len(ks) // 2
+    third = max(2, len(ks) // 3)
     lx = [-k * math.log(2) for k in ks[half:]]
     checks = 0
     fail = None
     s_rms = s_mean = None
+
+    def grows(vals, expo):
+        """|v(h)| / h^expo over the finest third exceeds twice its maximum over the coarsest third: the quantity is not
+        O(h^expo) on this ladder. (Second, cancellation-proof criterion: a slope fitted to |E R| is meaningless when the
+        leading coefficient is small and the mean changes sign inside the ladder.)"""
+        r = [v / (2.0 ** -k) ** expo for k, v in zip(ks, vals)]
+        return max(r[-third:]) > 2.0 * max(r[:third])
+
     if max(rms[half:]) > 1e-13:
         s_rms = _slope(lx, [math.log(max(e, 1e-300)) for e in rms[half:]])
         checks += 1
-        if not s_rms >= p + 0.5 - 0.15:
+        if not s_rms >= p + 0.5 - 0.15 and grows(rms, p + 0.5 - 0.15):
             fail = Fail("local_mean_square_order",
                         f"{label}: RMS of (step - Ito-Taylor 1.5) decays like h^{s_rms:.2f}, strong order {p} needs "
                         f"h^{p + 0.5}; f={fx}, g={gx}, (t,y)=({case['t0']},{case['y0']}); RMS {['%.2e' % e for e in rms]}",
@@ -203,7 +214,7 @@ def _run_taylor(case):
     if fail is None and max(mean[half:]) > 1e-13 and min(mean[half:]) > 1e-15:
         s_mean = _slope(lx, [math.log(e) for e in mean[half:]])
         checks += 1
-        if not s_mean >= p + 1 - 0.2:
+        if not s_mean >= p + 1 - 0.2 and grows(mean, p + 1 - 0.2):
             fail = Fail("local_mean_order",
                         f"{label}: |E(step - Ito-Taylor 1.5)| decays like h^{s_mean:.2f}, strong order {p} needs "
                         f"h^{p + 1}; f={fx}, g={gx}, (t,y)=({case['t0']},{case['y0']}); means {['%.2e' % e for e in mean]}",
